@@ -22,13 +22,13 @@ ASSUMPTIONS = ["source never annotates self/cls (DESIGN 3.8)"]
 KIND = {0: "posonly", 1: "poskw", 2: "vararg", 3: "kwonly", 4: "varkw"}
 
 
-def check_module(ctx, funcs, strat, k, sc, pid="C12", c13=None, via_rows=False):
+def check_module(ctx, funcs, strat, k, sc, pid="C12", c13=None, via_rows=False, rewriter=None):
     # the receiver is annotated in source only under OMIT, where C12 and C13 agree that the stub must not show it
     src = sigsynth.render(funcs, annotate_receiver=strat == EAS.OMIT)
     for f_ in funcs:
         f_.pop('_annotate_receiver', None)
     name, path = sc.new_module(src, stem="mtv_sig")
-    spec = ["SIG", funcs, strat.name, k] + (["via-rows"] if via_rows else [])
+    spec = ["SIG", funcs, strat.name, k] + (["via-rows"] if via_rows else []) + (["rewriter:default"] if rewriter is not None else [])
     try:
         try:
             mod = importlib.import_module(name)
@@ -47,7 +47,7 @@ def check_module(ctx, funcs, strat, k, sc, pid="C12", c13=None, via_rows=False):
             return
         hostile, nested = sigsynth.uses_hostile(funcs), sigsynth.uses_nested(funcs)
         try:
-            text = build_module_stubs_from_traces(traces, k, strat)[name].render()
+            text = build_module_stubs_from_traces(traces, k, strat, rewriter=rewriter)[name].render()
         except Exception as e:
             return ctx.fail(f"{pid}/stub-generation-raises:{type(e).__name__}", spec, f"{e!r}\n{src}")
         wrapped = any(l.rstrip().endswith("(") for l in text.splitlines())
@@ -58,7 +58,7 @@ def check_module(ctx, funcs, strat, k, sc, pid="C12", c13=None, via_rows=False):
             tf = [f for f in funcs if f["is_traced"]]
             nt = any(p["anno"] for f in tf for p in f["ps"]) or any(f["ret_anno"] for f in tf)
             nt = nt and any(p["traced"] != 0 for f in tf for p in f["ps"])
-        ctx.case(spec, nt, ["strategy:" + strat.name] + (["wrapped-signature"] if wrapped else []) + (["nested-class"] if nested else []) +
+        ctx.case(spec, nt, ["strategy:" + strat.name, "rewriter:" + ("default" if rewriter is not None else "noop")] + (["wrapped-signature"] if wrapped else []) + (["nested-class"] if nested else []) +
                  (["hostile-typeddict-keys"] if hostile else []) + sorted({"where:" + f["where"] for f in funcs if f["is_traced"]}))
         if c13 is not None:
             return c13(ctx, spec, mod, funcs, live, stub, strat, text, src)
@@ -160,9 +160,10 @@ def shard(ctx):
     sc = tracerun.Scratch("c12-")
     try:
         def factory(ctx):
-            @given(sigsynth.module(), st.sampled_from(list(EAS)), st.sampled_from([0, 3]), st.sampled_from([False, False, True]))
-            def test(funcs, strat, k, via_rows):
-                check_module(ctx, funcs, strat, k, sc, via_rows=via_rows)
+            @given(sigsynth.module(), st.sampled_from(list(EAS)), st.sampled_from([0, 3]), st.sampled_from([False, False, True]), st.booleans())
+            def test(funcs, strat, k, via_rows, rw):
+                from monkeytype.typing import DEFAULT_REWRITER
+                check_module(ctx, funcs, strat, k, sc, via_rows=via_rows, rewriter=DEFAULT_REWRITER if rw else None)
             return test
         core.run_hypothesis(ctx, factory, 500 if q else 4000)
         exhaustive_kinds(ctx, sc)
@@ -177,6 +178,7 @@ def run(ctx):
 def replay(ctx, case):
     sc = tracerun.Scratch("c12-")
     try:
-        check_module(ctx, case[1], EAS[case[2]], case[3], sc, via_rows=len(case) > 4)
+        from monkeytype.typing import DEFAULT_REWRITER
+        check_module(ctx, case[1], EAS[case[2]], case[3], sc, via_rows="via-rows" in case[4:], rewriter=DEFAULT_REWRITER if "rewriter:default" in case[4:] else None)
     finally:
         sc.close()
